@@ -219,7 +219,106 @@ func c07IndexFromFile(c *fw.Case) *c07Op {
 	}
 }
 
-var c07Ops = []func(c *fw.Case) *c07Op{c07Assemble, c07Verify, c07Chop, c07Copy, c07ChunkStream, c07IndexFromFile}
+// tree-based entry points: Tar, UnTar, UnTarIndex
+type c07Tree struct {
+	src, dst string
+	archive  []byte
+	want     map[string]*treeEntry
+}
+
+func c07GenTree(c *fw.Case) (*c07Tree, error) {
+	t := &c07Tree{src: filepath.Join(c.Dir(), "src"), dst: filepath.Join(c.Dir(), "dst")}
+	if _, err := genTree(c, t.src, 14); err != nil {
+		return nil, err
+	}
+	var err error
+	if t.archive, err = tarTree(t.src); err != nil {
+		return nil, err
+	}
+	t.want, err = snapshot(t.src)
+	return t, err
+}
+
+func (t *c07Tree) treeComplete() string {
+	got, err := snapshot(t.dst)
+	if err != nil {
+		return err.Error()
+	}
+	if cat, d := diffTrees(t.want, got, map[string]bool{"mtime-symlink": true}); cat != "" {
+		return "unpacked tree is incomplete (" + cat + "): " + d
+	}
+	return ""
+}
+
+func c07Tar(c *fw.Case) *c07Op {
+	t, err := c07GenTree(c)
+	if err != nil {
+		c.HarnessError("%v", err)
+		return nil
+	}
+	var out bytes.Buffer
+	c.Note("Tar entries=%d archive=%d bytes", len(t.want), len(t.archive))
+	return &c07Op{
+		name:  "Tar",
+		reset: func() error { out.Reset(); return nil },
+		run: func(rt *simrt.RT, ctx context.Context) error {
+			return desync.Tar(ctx, &out, desync.NewLocalFS(t.src, desync.LocalFSOptions{}))
+		},
+		complete: func() string {
+			if !bytes.Equal(out.Bytes(), t.archive) {
+				return fmt.Sprintf("archive has %d of %d bytes", out.Len(), len(t.archive))
+			}
+			return ""
+		},
+	}
+}
+
+func c07UnTar(c *fw.Case) *c07Op {
+	t, err := c07GenTree(c)
+	if err != nil {
+		c.HarnessError("%v", err)
+		return nil
+	}
+	c.Note("UnTar entries=%d archive=%d bytes", len(t.want), len(t.archive))
+	return &c07Op{
+		name:  "UnTar",
+		reset: func() error { os.RemoveAll(t.dst); return os.Mkdir(t.dst, 0755) },
+		run: func(rt *simrt.RT, ctx context.Context) error {
+			return desync.UnTar(ctx, &fragReader{data: t.archive, r: c.Rand("frag"), mode: 2}, desync.NewLocalFS(t.dst, desync.LocalFSOptions{}))
+		},
+		complete: t.treeComplete,
+	}
+}
+
+func c07UnTarIndex(c *fw.Case) *c07Op {
+	t, err := c07GenTree(c)
+	if err != nil {
+		c.HarnessError("%v", err)
+		return nil
+	}
+	sz := sizes{64, 256, 1024}
+	idx := mkIndex(t.archive, sz)
+	n := c.Range(1, 5, "c07.n")
+	var st *simStore
+	c.Note("UnTarIndex entries=%d chunks=%d n=%d", len(t.want), len(idx.Chunks), n)
+	return &c07Op{
+		name: "UnTarIndex",
+		reset: func() error {
+			st = newSimStore(c, "store")
+			st.fill(t.archive, idx.Chunks)
+			os.RemoveAll(t.dst)
+			return os.Mkdir(t.dst, 0755)
+		},
+		run: func(rt *simrt.RT, ctx context.Context) error {
+			st.rt = rt
+			defer func() { st.rt = nil }()
+			return desync.UnTarIndex(ctx, desync.NewLocalFS(t.dst, desync.LocalFSOptions{}), idx, st, n, desync.NullProgressBar{})
+		},
+		complete: t.treeComplete,
+	}
+}
+
+var c07Ops = []func(c *fw.Case) *c07Op{c07Assemble, c07Verify, c07Chop, c07Copy, c07ChunkStream, c07IndexFromFile, c07Tar, c07UnTar, c07UnTarIndex}
 
 func runC07(c *fw.Case) {
 	if desyncBin() != "" && c.Chance(1, 10, "c07.proc") {
@@ -228,6 +327,9 @@ func runC07(c *fw.Case) {
 	}
 	defer desync.VerifSetCloneRangeHook(nil)
 	op := c07Ops[c.Draw(len(c07Ops), "c07.op")](c)
+	if op == nil {
+		return
+	}
 	c.Class(op.name)
 	// run A: no cancellation; records the schedule and its length
 	if err := op.reset(); err != nil {
